@@ -14,4 +14,5 @@ def run(ck):
     locks.spec_api_handlers(ck)
     locks.spec_http_handshake(ck)
     locks.spec_dispatcher_locks(ck)
+    locks.spec_gc_locks(ck)
     ck.post_filter = lambda o: o.label.startswith('C14/') or o.status in ('undecided', 'vacuous', 'inconclusive')
